@@ -169,3 +169,14 @@ Definition sound_ok (c : case) : bool :=
     end
   | _ => true
   end.
+
+(* a text the real parser accepted must be accepted by the model of the grammar
+   (parse_sound: what the model accepts is a rendering of a tree of the grammar;
+   parse_print: it accepts every rendering) -- otherwise the real parser gives a
+   meaning to a text outside the grammar *)
+Definition accept_ok (c : case) : bool :=
+  match c with
+  | CNearE ts (Some _) => match parse_expr ts with Ok _ => true | _ => false end
+  | CNearF ts (Some _) => match parse_file ts with Ok _ => true | _ => false end
+  | _ => true
+  end.
